@@ -8,6 +8,10 @@ import (
 	"math/rand"
 	"os"
 
+	"sort"
+
+	"github.com/advancedclimatesystems/gonnx/onnx"
+	"github.com/advancedclimatesystems/gonnx/ops"
 	"github.com/advancedclimatesystems/gonnx/ops/opset13"
 	"gorgonia.org/tensor"
 )
@@ -38,6 +42,7 @@ type emitter struct {
 	// sampling of borrowed streams (C02 re-uses the operator streams of the other properties)
 	every, seen int
 	onlyKinds   map[string]bool
+	streamPrefix string
 }
 
 func newEmitter(path, prop string, seed int64) *emitter {
@@ -59,6 +64,9 @@ func (e *emitter) emit(c *Case) {
 		}
 	}
 	c.Prop = e.prop
+	if e.streamPrefix != "" {
+		c.Stream = e.streamPrefix + c.Stream
+	}
 	for _, t := range c.Inputs {
 		normTJ(t)
 	}
@@ -106,6 +114,9 @@ func runOpShared(name string, attrs []Attr, inputs []*TJ, outNames []string, sha
 		snaps := make([]snap, len(inputs))
 		for i, t := range inputs {
 			ts[i] = mkTensor(t)
+			if inputLayout == "lazy-transposed" {
+				ts[i] = lazyTransposed(ts[i])
+			}
 			snaps[i] = snapshot(ts[i])
 		}
 		for _, p := range share {
@@ -143,8 +154,150 @@ func runOpShared(name string, attrs []Attr, inputs []*TJ, outNames []string, sha
 		for i := range orig {
 			res.Mut = append(res.Mut, diffSnap(i, snaps[i], snapshot(orig[i]))...)
 		}
+		if res.Status == "ok" && share == nil && inputLayout == "" {
+			reuseCounter++
+			if reuseEvery > 0 && reuseCounter%reuseEvery == 0 {
+				res.Reuse = reuseProbe(name, node, inputs, res)
+			}
+		}
 		return res
 	})
+}
+
+// inputLayout "lazy-transposed": every input of rank >= 2 is handed over as a Dense whose backing array
+// is stored transposed and whose transposition back is still pending (what a caller gets from x.T()):
+// logically the same tensor, physically not contiguous. Used by the C02 purity stream.
+var inputLayout = ""
+
+func lazyTransposed(t tensor.Tensor) tensor.Tensor {
+	d, ok := t.(*tensor.Dense)
+	if !ok || d.Dims() < 2 {
+		return t
+	}
+	c, ok := d.Clone().(*tensor.Dense)
+	if !ok {
+		return t
+	}
+	if err := c.T(); err != nil {
+		return t
+	}
+	if err := c.Transpose(); err != nil {
+		return t
+	}
+	if err := c.T(); err != nil {
+		return t
+	}
+	return c
+}
+
+// reuseEvery: probe every n-th successful operator case for state kept on the operator instance
+// (0 = never); set by the generators of the very large streams.
+var reuseEvery = 1
+var reuseCounter = 0
+
+// warmups are valid-looking variations of the first input: the same tensor, one more leading axis,
+// the last axis one longer / one shorter.
+func warmups(t *TJ) map[string]*TJ {
+	out := map[string]*TJ{"same-input": t}
+	if t == nil {
+		return out
+	}
+	cp := func(shape []int, pick func(i int) int, n int) *TJ {
+		r := &TJ{Dt: t.Dt, Shape: shape}
+		for i := 0; i < n; i++ {
+			j := pick(i)
+			if len(t.Bits) > 0 {
+				r.Bits = append(r.Bits, t.Bits[j])
+			}
+			if len(t.Data) > 0 {
+				r.Data = append(r.Data, t.Data[j])
+			}
+		}
+		return r
+	}
+	n := nelem(t.Shape)
+	if len(t.Bits) != n && len(t.Data) != n {
+		return out
+	}
+	out["leading-axis-added"] = cp(append([]int{1}, t.Shape...), func(i int) int { return i }, n)
+	if r := len(t.Shape); r >= 1 && n > 0 {
+		L := t.Shape[r-1]
+		longer := append([]int{}, t.Shape...)
+		longer[r-1] = L + 1
+		out["last-axis-longer"] = cp(longer, func(i int) int {
+			row, c := i/(L+1), i%(L+1)
+			if c >= L {
+				c = L - 1
+			}
+			return row*L + c
+		}, n/L*(L+1))
+		if L >= 2 {
+			shorter := append([]int{}, t.Shape...)
+			shorter[r-1] = L - 1
+			out["last-axis-shorter"] = cp(shorter, func(i int) int { return (i/(L-1))*L + i%(L-1) }, n/L*(L-1))
+		}
+	}
+	return out
+}
+
+// reuseProbe: an operator instance that has already been applied to other inputs must give, for this
+// case's inputs, what a fresh instance gives. Returns the warm-ups after which it does not.
+func reuseProbe(name string, node *onnx.NodeProto, inputs []*TJ, fresh *Result) []string {
+	if len(inputs) == 0 {
+		return nil
+	}
+	want, _ := json.Marshal(fresh.Outs)
+	var bad []string
+	apply := func(op ops.Operator, ins []*TJ) (r *Result) {
+		defer func() {
+			if p := recover(); p != nil {
+				r = &Result{Status: "panic", Msg: fmt.Sprint(p)}
+			}
+		}()
+		ts := make([]tensor.Tensor, len(ins))
+		for i, t := range ins {
+			ts[i] = mkTensor(t)
+		}
+		vts, err := op.ValidateInputs(ts)
+		if err != nil {
+			return errResult(err)
+		}
+		outs, err := op.Apply(vts)
+		if err != nil {
+			return errResult(err)
+		}
+		r = &Result{Status: "ok"}
+		for _, o := range outs {
+			r.Outs = append(r.Outs, toTJ(o))
+		}
+		return r
+	}
+	ws := warmups(inputs[0])
+	keys := make([]string, 0, len(ws))
+	for k := range ws {
+		keys = append(keys, k)
+	}
+	sort.Strings(keys)
+	for _, k := range keys {
+		op, err := opset13.GetOperator(name)
+		if err != nil || op.Init(node) != nil {
+			continue
+		}
+		// Conv stores the per-rank defaults of its first call on the instance (by design: Run makes a
+		// fresh operator per node and call), so a warm-up of another rank is outside what it supports
+		if name == "Conv" && k == "leading-axis-added" {
+			continue
+		}
+		if w := apply(op, append([]*TJ{ws[k]}, inputs[1:]...)); w.Status != "ok" {
+			continue // only a successful earlier call counts
+		}
+		got := apply(op, inputs)
+		g, _ := json.Marshal(got.Outs)
+		if got.Status != "ok" || string(g) != string(want) {
+			bad = append(bad, fmt.Sprintf("%s: then %s %s", k, got.Status, got.Msg))
+		}
+	}
+	return bad
 }
 
 func sameObj(a, b tensor.Tensor) bool {
